@@ -681,6 +681,30 @@ def encChunkFields (ideal : Bool) (items : Items) (payloadLen : Nat) (v : Value)
         if (ideal ∨ w < 64) ∧ vs.length > maskBits w then .err .countOverflow
         else next (vs.length % 2 ^ backingOf w)
 
+/-- a static count is a Rust array type `[T; N]`: a value of another length does not exist -/
+def checkCount (shape : Shape) (len : Nat) : Enc Unit :=
+  match shape with
+  | .static n => if len = n then .ok () else .panic .badValue
+  | _ => .ok ()
+
+/-- `if array_size > padding_octets { return Err(SizeOverflow) }` -/
+def checkPad (pad : Option Nat) (sz : Nat) : Enc Unit :=
+  match pad with
+  | none => .ok ()
+  | some p => if sz > p then .err .sizeOverflow else .ok ()
+
+/-- the `array_size` expression of `encode_array_field` -/
+def arrSize (ew : ElemWidth) (elemLen : Value → Nat) (vs : List Value) : Nat :=
+  match ew with
+  | .static w => vs.length * w
+  | _ => sumLen elemLen vs
+
+/-- `buf.put_bytes(0, padding_octets - array_size)` -/
+def padTo (pad : Option Nat) (bs : Bytes) : Enc Bytes :=
+  match pad with
+  | none => .ok bs
+  | some p => if bs.length ≤ p then .ok (bs ++ zeros (p - bs.length)) else .panic .subOverflow
+
 /-- `for elem in &self.x { put(elem) }` -/
 def encListWith (f : Value → Enc Bytes) : List Value → Enc Bytes
   | [] => .ok []
@@ -729,19 +753,11 @@ def encItem (c : Cfg) (all : Items) (payload : Enc Bytes) (payloadLen : Nat) (v 
       | _ => encTy c ty x
   -- the child's serialization runs here, *after* the checks of the fields before the payload
   | .payload _ => payload
-  | .array id elem ew _ pad =>
+  | .array id elem ew shape pad =>
     (listField v id).bind fun vs =>
-    (match pad with
-     | none => Outcome.ok ()
-     | some p =>
-       let sz := match ew with
-         | .static w => vs.length * w
-         | _ => sumLen (lenTy elem) vs
-       if sz > p then Outcome.err EncErr.sizeOverflow else Outcome.ok ()).bind fun _ =>
-    (encListWith (encTy c elem) vs).bind fun bs =>
-      match pad with
-      | none => .ok bs
-      | some p => if bs.length ≤ p then .ok (bs ++ zeros (p - bs.length)) else .panic .subOverflow
+    (checkCount shape vs.length).bind fun _ =>
+    (checkPad pad (arrSize ew (lenTy elem) vs)).bind fun _ =>
+    (encListWith (encTy c elem) vs).bind fun bs => padTo pad bs
 
 def encItems (c : Cfg) (all : Items) (payload : Enc Bytes) (payloadLen : Nat) (v : Value) :
     Items → Enc Bytes
